@@ -171,6 +171,7 @@ def channel_read_map (self : CChannel) (reader : CReader) : (Nat × Nat) × CCha
     let nbytes := 0
     let self := { self with holds_pos := self.holds_pos.set pos_ix (self.head) }
     let self := { self with holds_cycles := self.holds_cycles.set cycle_ix (self.cycle) }
+    let bookmark_moved := 1
     if (bookmark_moved ≠ 0) then
       let self := { self with notified := self.notified + 1 }
       ((out, (out + nbytes)), self, reader)
@@ -192,6 +193,7 @@ def channel_read_map (self : CChannel) (reader : CReader) : (Nat × Nat) × CCha
           let nbytes := 0
           let self := { self with holds_pos := self.holds_pos.set pos_ix (self.head) }
           let self := { self with holds_cycles := self.holds_cycles.set cycle_ix (self.cycle) }
+          let bookmark_moved := 1
           if (bookmark_moved ≠ 0) then
             let self := { self with notified := self.notified + 1 }
             ((out, (out + nbytes)), self, reader)
@@ -237,6 +239,7 @@ def channel_read_map (self : CChannel) (reader : CReader) : (Nat × Nat) × CCha
           let nbytes := 0
           let self := { self with holds_pos := self.holds_pos.set pos_ix (self.head) }
           let self := { self with holds_cycles := self.holds_cycles.set cycle_ix (self.cycle) }
+          let bookmark_moved := 1
           if (bookmark_moved ≠ 0) then
             let self := { self with notified := self.notified + 1 }
             ((out, (out + nbytes)), self, reader)
@@ -283,6 +286,7 @@ def channel_read_map (self : CChannel) (reader : CReader) : (Nat × Nat) × CCha
           let nbytes := 0
           let self := { self with holds_pos := self.holds_pos.set pos_ix (self.head) }
           let self := { self with holds_cycles := self.holds_cycles.set cycle_ix (self.cycle) }
+          let bookmark_moved := 1
           if (bookmark_moved ≠ 0) then
             let self := { self with notified := self.notified + 1 }
             ((out, (out + nbytes)), self, reader)
@@ -328,6 +332,7 @@ def channel_read_map (self : CChannel) (reader : CReader) : (Nat × Nat) × CCha
           let nbytes := 0
           let self := { self with holds_pos := self.holds_pos.set pos_ix (self.head) }
           let self := { self with holds_cycles := self.holds_cycles.set cycle_ix (self.cycle) }
+          let bookmark_moved := 1
           if (bookmark_moved ≠ 0) then
             let self := { self with notified := self.notified + 1 }
             ((out, (out + nbytes)), self, reader)
